@@ -4,7 +4,8 @@ import ast
 import struct
 
 from ..astutil import (call_name, calls_in, walk_no_nested, params_of, kw,
-                       expand_locals, is_const, single_defs)
+                       expand_locals, is_const, single_defs,
+                       expand_fact_texts)
 from ..cfg import cfg_of, loop_body_paths, expr_owner_node, enumerate_paths
 from ..loader import Program, AnalysisError, unparse
 from ..pathutil import (node_calls, node_yields, path_method_calls,
@@ -389,7 +390,7 @@ def rule_r2(chk, prog):
         if p.end is not head:
             continue
         n_iter += 1
-        facts = set(p.facts)
+        facts = expand_fact_texts(f, set(p.facts))
         desc = describe_path(p)
         both = popped >= {stack_self, other_stack}
         chk.check('C12.R2', where, f'{desc}: both stacks popped', both,
@@ -509,8 +510,10 @@ def rule_r3(chk, prog):
                 isinstance(t, ast.Attribute) and t.attr == 'data'
                 for t in st.targets):
             v = unparse(st.value)
-            ok = v in ('_data', 'str(args[0])') or v.startswith(
-                'tuple(map(')
+            ok = v in ('_data', 'str(args[0])') or (
+                isinstance(st.value, ast.Call)
+                and call_name(st.value) == 'tuple'
+                and '__ensure_is_node(' in v)
             chk.check('C12.R3', 'nodes.Node.__init__', st, ok,
                       'data slot assigned from an unexpected expression',
                       loc=m.loc(st))
